@@ -269,7 +269,8 @@ class MultipartBodyStructure(BodyStructure):
         super().__init__('multipart', subtype, content_type_params,
                          content_disposition, content_language,
                          content_location)
-        self.parts = parts
+        # the grammar needs at least one part
+        self.parts = parts or [BodyStructure.empty()]
 
     @property
     def _value(self) -> List:
